@@ -334,8 +334,15 @@ def main():
         for pr in problems:
             c.violation("grammar-sentences", "the sentence table no longer covers every alternative of the regenerated python.gram: " + pr["problem"],
                         dict(rule=pr["rule"], alt=pr["alt"], problem=pr["problem"], text=pr.get("text")), no_input="text" not in pr)
+        # positive neighbours of the error-reporting rules (round 3): valid programs one token away from what an invalid_* rule reports
+        import c09_neighbours as cn
+        nproblems, near = cn.check(g["python"])
+        for pr in nproblems:
+            c.violation("grammar-sentences", "the table of positive neighbours of the error-reporting rules is out of step with the regenerated python.gram: " + pr["problem"],
+                        dict(rule=pr["rule"], alt=pr["alt"], problem=pr["problem"]), no_input=True)
+        c.cov["invalid_rule_neighbours"] = dict(rules=len({s_["rule"] for s_ in near}), sentences=len(near))
         seen = set()
-        for s_ in sents + [dict(rule="py312", alt=i, text=t) for i, t in enumerate(cs.EXTRA_312)] \
+        for s_ in sents + near + [dict(rule="py312", alt=i, text=t) for i, t in enumerate(cs.EXTRA_312)] \
                 + [dict(rule="layout", alt=i, text=t) for i, t in enumerate(cs.EXTRA_LAYOUT)]:
             if s_["text"] in seen:
                 continue
